@@ -92,13 +92,33 @@ SCRIPTS = [
 ]
 
 
+def pair_traces(servo='GFR', coords='12.5', bad='9999'):
+    """every ordered pair of commands on one servo, close in time, then past the timer delay"""
+    cmds = ['SETUP=Gregoriano2', 'SETUP=Gregoriano7', 'STOW=%s,1' % servo, 'STOP=%s' % servo,
+            'PRESET=%s,%s' % (servo, coords), 'PRESET=%s,%s' % (servo, bad), 'OFFSET=%s,%s' % (servo, '1.5'),
+            'STATUS=%s' % servo]
+    if servo == 'SRP':
+        cmds = [c.replace('12.5', '1,2,3,0.1,0.1,0.1').replace('9999', '1,2,3,0.1,0.1,9').replace('1.5', '1,1,1,0,0,0')
+                for c in cmds]
+    out = []
+    for a in cmds:
+        for b in cmds:
+            out.append([[None, 0], [a, 10], [b, 100], [None, 3000], ['STATUS=%s' % servo, 3000], [None, 200000],
+                        ['STATUS=%s' % servo, 10]])
+    return out
+
+
 def correspondence(ctx):
     cases = []
     for sc in SCRIPTS:
         term, _ = make_case(ctx, 1, 0, scripted=sc)
         cases.append(term)
         ctx.count('scripted')
-    n = ctx.n(70, 1500)
+    for tr in pair_traces('GFR') + (pair_traces('SRP') if not ctx.quick() else []):
+        term, _ = make_case(ctx, 2, 0, scripted=[(None if l is None else l + '\r\n', dt) for l, dt in tr])
+        cases.append(term)
+        ctx.count('pairs')
+    n = ctx.n(70, 700)
     for k in range(n):
         seed = ctx.rng.randrange(1 << 30)
         nops = ctx.rng.choice([8, 15, 25, 40])
@@ -154,6 +174,8 @@ class Watch:
         self.failed = set()
         self.checked = 0
         self.pristine = self.table_snapshot()
+        self.expect = {}          # servo -> ('stop',) | ('stow', fire tick, allowed) | ('move', future mode)
+        self.inflight = {}        # servo -> future mode of a SETUP/PRESET whose arrival was not yet seen
 
     def table_snapshot(self):
         c = self.rig.system.configurations
@@ -194,6 +216,23 @@ class Watch:
                     if d > md[i] * moved_dt * (1 + 1e-9) + 1e-9:
                         self.fail('msv_speed_exceeded', '%s axis %d moved %r in %r s (max_delta %r)'
                                   % (n, i, d, moved_dt, md[i]))
+        for n, ex in self.expect.items():
+            sv = self.rig.system.servos[n]
+            m = sv.operative_mode.value
+            if ex[0] == 'stop' and m != 30:
+                self.fail('msv_stop_not_kept', '%s reads mode %r after STOP with no later command' % (n, m))
+            elif ex[0] == 'stow':
+                if self.rig.tick >= ex[1] and m != 20:
+                    self.fail('msv_stow_not_reached', '%s reads mode %r after the stow delay' % (n, m))
+                elif self.rig.tick < ex[1] and m not in ex[2]:
+                    self.fail('msv_stow_early', '%s reads mode %r before the stow delay' % (n, m))
+            elif ex[0] == 'move':
+                arrived = [float(x) for x in sv.coords] == [float(x) for x in sv.cmd_coords]
+                if m not in (0, ex[1]) or (m == ex[1] and not arrived):
+                    self.fail('msv_mode_sequence', '%s reads mode %r (future %r, arrived %r)' % (n, m, ex[1], arrived))
+        for n, f in list(self.inflight.items()):
+            if f and self.rig.system.servos[n].operative_mode.value == f:
+                self.inflight[n] = 0          # arrival seen: nothing is pending any more
         if self.table_snapshot() != self.pristine:
             self.fail('msv_setup_table_overwritten', 'the configuration table differs from setup.csv')
 
@@ -205,6 +244,8 @@ class Watch:
         lasts = {n: sv.last_status_read for n, sv in self.rig.system.servos.items()}
         self.rig.refresh(dt)
         self.trace.append([None, dt])
+        if self.rig.update_exc is not None:
+            self.fail('msv_update_thread_raised', 'System._update raised %r' % (self.rig.update_exc,))
         now = self.rig.now()
         # per-servo elapsed time differs (STATUS=<servo> refreshes one servo only)
         for n, sv in self.rig.system.servos.items():
@@ -279,6 +320,10 @@ class Watch:
                 cells = row[n]
                 ok_row = all(c is None or (math.isfinite(c) and lo[i] <= c <= hi[i]) for i, c in enumerate(cells))
                 want = [pre_cmd[n][i] if c is None else c for i, c in enumerate(cells)] if ok_row else pre_cmd[n]
+                if not ok_row:
+                    self.fail('msv_setup_table_cell_outside_limits',
+                              'SETUP=%s cannot drive %s to its tabulated coordinates %r (limits %r..%r)'
+                              % (args[0], n, cells, lo, hi))
                 if [H.fbits(x) for x in sv.cmd_coords] != [H.fbits(x) for x in want]:
                     self.fail('msv_setup_star_cell', 'SETUP=%s: %s commanded %r, expected %r (cells %r)'
                               % (args[0], n, list(sv.cmd_coords), want, cells))
@@ -289,6 +334,25 @@ class Watch:
             sv = sysm.servos[args[0]]
             if sv.operative_mode.value != 30:
                 self.fail('msv_mode_after_stop', 'mode %r right after STOP' % sv.operative_mode.value)
+            if rig.timer_of(sv.operative_mode_timer) is not None:
+                self.fail('msv_stop_timer_pending', 'a mode timer is still pending after STOP')
+            self.expect[args[0]] = ('stop',)
+        if good and cmd == 'PROGRAMTRACK' and args and args[0] in sysm.servos:
+            self.expect.pop(args[0], None)
+        if good and cmd == 'PRESET' and args and args[0] in sysm.servos:
+            self.expect[args[0]] = ('move', 40)
+            self.inflight[args[0]] = 40
+        if good and cmd == 'SETUP':
+            for n, sv in sysm.servos.items():
+                self.expect[n] = ('move', sv.future_oper_mode) if sv.future_oper_mode else None
+            self.expect = {k: v for k, v in self.expect.items() if v}
+            for n, sv in sysm.servos.items():
+                if sv.future_oper_mode == 10:
+                    self.inflight[n] = 10
+        if good and cmd == 'STOW' and args and args[0] in sysm.servos:
+            sv = sysm.servos[args[0]]
+            self.expect[args[0]] = ('stow', rig.tick + int(rig.timer_value * H.TICKS),
+                                    (0, self.inflight.get(args[0], 0)))
         if cmd == 'STOW' and good and args[0] in sysm.servos:
             sv = sysm.servos[args[0]]
             t = rig.timer_of(sv.operative_mode_timer)
@@ -376,7 +440,7 @@ def oracle(ctx):
     import random
     checked = 0
     histories = 0
-    for tr in DIRECTED:
+    for tr in DIRECTED + pair_traces('GFR') + pair_traces('SRP'):
         w = run_trace(ctx, tr)
         checked += w.checked
         histories += 1
@@ -387,13 +451,16 @@ def oracle(ctx):
         w = Watch(ctx, seed, rng.choice([5, 5, 1, 2]))
         try:
             lim = w.lim
-            ptstate = {}
+            ptstate = {'_focus': rng.choice(w.rig.names) if rng.random() < 0.75 else None}
             if rng.random() < 0.8:
                 w.refresh(0)
             for _ in range(rng.choice([10, 20, 40])):
                 dt = rng.choice(H.DTS)
                 if rng.random() < 0.2:
                     w.refresh(dt)
+                    continue
+                if rng.random() < 0.05:
+                    H.pt_burst(rng, w.rig, lim, lambda d, t: w.command(d[:-2], t), w.refresh)
                     continue
                 line = H.gen_command(rng, w.rig, lim, ptstate)
                 if '\r' in line or '\n' in line:
